@@ -328,8 +328,14 @@ class Parser:
             break
         if self.at_kw('SELECT'):
             body = self.select()
+        elif self.at_kw('DELETE'):
+            body = self.delete()            # a write statement that does not START with a write keyword
+        elif self.at_kw('INSERT'):
+            body = self.insert()
+        elif self.at_kw('UPDATE'):
+            body = self.update()
         else:
-            raise Unsupported('WITH followed by a non-SELECT statement')
+            raise Unsupported('WITH followed by an unknown statement')
         return WithStmt(ctes, body)
 
     def select(self):
@@ -604,7 +610,8 @@ class Parser:
                     self.take()
                     e = IsNull(e, neg)
                 else:
-                    raise Unsupported('IS <expr>')
+                    # null-safe comparison: never NULL (two NULLs are equal, NULL and a value are different)
+                    e = Bin('IS NOT' if neg else 'IS', e, self.add_expr())
             elif self.at_kw('NOT') and self.peek(1) and self.peek(1).kind == 'kw' and self.peek(1).val == 'IN':
                 self.take()
                 self.take()
